@@ -289,7 +289,10 @@ Definition judge_lock (ti tobs : tree) : tree :=
       let diffs := diff_if (tree_eqb (enc_net nt) netdump) 1 ++ diff_snap s0 snap0 ++ diff_snaps out snaps in
       let last := last snaps snap0 in
       let clauses := (match last with T [T ns; _; _] => flat_map lock_clauses_node ns | _ => [] end)
-                     ++ c17_clauses (li_T i) out snaps waits (main_blocked (st p))
+                     ++ (let cs := c17_clauses (li_T i) out snaps waits (main_blocked (st p)) in
+                         cs ++ (if existsb (fun cs' => match fst cs' with CFail => true | _ => false end) out
+                                   && existsb (tree_eqb (clause 3 8 [])) cs
+                                then [clause 18 9 []] else []))
                      ++ final_clauses nt fin
                      ++ c18_return_clauses (snaps ++ match fin with T [sn; _] => [sn] | _ => [] end) in
       verdict (dedup diffs) clauses (T [enc_net nt; s0; ofList (fun cs => snd cs) out])
@@ -348,7 +351,11 @@ Definition judge_free (ti tobs : tree) : tree :=
               let clean_clause := (if clean then [] else [clause 17 2 []; clause 3 8 []])
                                   ++ (if existsb (fun e => match e with TDone _ => true | _ => false end) p && negb (any_nil_end p)
                                       then [clause 18 8 []] else []) in
-              let stall_clause := clean_clause ++ full_clause ++ (if stall_ok =? 0 then [clause 4 3 []] else []) ++ (if cut <? 0 then [] else stall_acct) in
+              (* (18,9): a run in which a failed source was restarted must end like any other: events of the new incarnation
+                 flow through the same pipeline and its nil return ends the run *)
+              let restart_clause := if negb clean && existsb (fun e => match e with TEnd _ false => true | _ => false end) p
+                                    then [clause 18 9 []] else [] in
+              let stall_clause := clean_clause ++ restart_clause ++ full_clause ++ (if stall_ok =? 0 then [clause 4 3 []] else []) ++ (if cut <? 0 then [] else stall_acct) in
               verdict (diff_if (tree_eqb (enc_net nt) netdump) 1) (map enc_pc (flat_map also_c16 fails) ++ stall_clause) (enc_net nt)
                       ((if clean then [30] else [31])
                        ++ (if existsb (fun x => ndisc x) nt then [20] else [])
